@@ -4,7 +4,7 @@ CONSTANTS
   ThrMode = "fixed"
   EmptyMode = "fixed"
   RstMode = "fixed"
-  CfgSet <- SchedCfgs
+  CfgSet <- SchedCfgsA
   Ids = {1, 2}
   Hosts = {"h0", ""}
   Lens = {0, 1, 2, 3}
@@ -12,12 +12,12 @@ CONSTANTS
   MaxOpens = 2
   MaxBytes = 8
   MaxDgrams = 2
-  Depth = 40
-  EmitEvery = 40
+  Depth = 60
+  EmitEvery = 20
   Faults = {}
   WithBind = FALSE
-  AdvMsgs = {}
-  MaxAdv = 0
+  AdvMsgs <- AdvSetS
+  MaxAdv = 12
   MaxNow = 0
   WithBridge = FALSE
 INVARIANTS Emit NoViolation
